@@ -159,11 +159,11 @@ def check(run: Run):
                 items.append(("L2L", r))
                 if len(r["seq"]) <= 4000:
                     items.append(("L2", r))
-            elif r["kind"] == "seqB" or len(r["seq"]) <= tier["l2_len"]:
+            elif r["kind"] in ("seqB", "seqU") or len(r["seq"]) <= tier["l2_len"]:
                 items.append(("L2", r))
             else:
                 long_frames.append(r)
-        elif r["act"] in ("GetTranslation", "StopOps", "PairGetTranslation", "PairStopOps"):
+        elif r["act"] in ("GetTranslation", "StopOps", "Select", "PairGetTranslation", "PairStopOps"):
             grouped.setdefault((r["kind"], r["code"], "".join(r["seq"]), "".join(r["seq2"])), []).append(r)
         else:
             items.append(("L3", r))
@@ -275,7 +275,7 @@ def check(run: Run):
         "'-' and '?' are checked for complement / rc / degeneracy only (their resolution depends on allow_gap); protein X is not checked (alphabet-dependent), B and Z are",
         "long family (lengths around 2^8 codons in quick; 2^8 / 2^16 bases and codons, 300 and 1000 codons in thorough): the sequence is generated and its six expected proteins are computed by TLC with the same per-codon Translate of the spec (emitted by a single-worker TLC run, lines exceed the atomic write size); strings above 4000 bases skip the old-style sequence / collection objects",
         "histories (GeneticCodeHistory.tla): each maximal sequence of questions is replayed in its own child forked from a parent that has only imported cogent3 and compiled the k-mer kernel through the alphabet; the degenerate codons used have amino-acid sets that are neither a single residue nor Asx/Glx, where old ('symbol of the set') and new ('X') conventions coincide",
-        "best_frame / select_translatable ORF heuristics are not covered",
+        "best_frame / select_translatable are checked on the single-ORF family only (exactly one, or no, acceptable frame of six): the ranking of several acceptable frames and require_stop are not covered",
     ]
 
 
